@@ -885,6 +885,8 @@ def check(pid, tier, only=None, jobs=None, keep=False):
         "violations": len(viol),
     }
     evdir = os.environ.get("VF_EVIDENCE_DIR", os.path.join(VERIF, "evidence"))
+    if only and "VF_EVIDENCE_DIR" not in os.environ:
+        evdir = os.path.join(BUILD, "evidence_partial")     # a filtered run must not replace the evidence of the registered check
     os.makedirs(evdir, exist_ok=True)
     json.dump(ev, open(os.path.join(evdir, pid + ".json"), "w"), indent=1)
     print("[%s] tier=%s obligations=%d discharged=%d known=%d undecided=%d errors=%d violations=%d wall=%.0fs" % (
